@@ -244,6 +244,23 @@ def run_svd(case, seed):
     return res
 
 
+def eigh_reference(dm, qn, comp, qntot):
+    """brute force, element by element: entry (i, j) of dm survives iff qn[i] == qn[j] and some complementary label
+    equals qntot - qn[i]; then the negative eigenvalues of the surviving Hermitian matrix are removed."""
+    N = len(qn)
+    md = numpy.zeros_like(dm)
+    present = []
+    for i in range(N):
+        present.append(any(all(int(c[t]) == int(qntot[t]) - int(qn[i][t]) for t in range(len(qntot))) for c in comp))
+    for i in range(N):
+        for j in range(N):
+            if present[i] and all(int(qn[i][t]) == int(qn[j][t]) for t in range(len(qntot))):
+                md[i, j] = dm[i, j]
+    w, x = numpy.linalg.eigh((md + md.conj().T) / 2)
+    psd = (x * numpy.where(w > 0, w, 0)) @ x.conj().T
+    return md, psd, present
+
+
 def run_eigh(case, seed):
     rng = numpy.random.default_rng([seed, case["id"]])
     qnl = numpy.array(case["qnl"], dtype=int).reshape(len(case["qnl"]), -1)
@@ -251,24 +268,34 @@ def run_eigh(case, seed):
     qntot = numpy.array(case["qntot"], dtype=int)
     res = {"id": case["id"], "ok": False, "error": None, "struct": None, "order": [], "perm": [], "oracle": []}
     m, n = len(qnl), len(qnr)
-    c = rng.standard_normal((m, n))
-    if case.get("complex"):
-        c = c + 1j * rng.standard_normal((m, n))
-    mask = numpy.all(qnl[:, None, :] + qnr[None, :, :] == qntot, axis=-1)
-    c = c * mask
+    cplx = bool(case.get("complex"))
+    def rnd(*shape):
+        x = rng.standard_normal(shape)
+        return x + 1j * rng.standard_normal(shape) if cplx else x
     if case["system"] == "L":
-        dm = c @ c.conj().T
-        qn, comp = qnl, qnr
+        qn, comp, N = qnl, qnr, m
     else:
-        dm = c.T @ c.conj()
-        qn, comp = qnr, qnl
-    if case.get("junk"):
-        # entries between different sectors / in sectors without partner: eigh_qn must ignore them
-        j = rng.standard_normal(dm.shape)
-        j = (j + j.T) / 2
+        qn, comp, N = qnr, qnl, n
+    kind = case.get("dm", "state")
+    if kind == "state":
+        # reduced density matrix of a symmetry-adapted state: zero outside the allowed sectors
+        mask = numpy.all(qnl[:, None, :] + qnr[None, :, :] == qntot, axis=-1)
+        c = rnd(m, n) * mask
+        dm = c @ c.conj().T if case["system"] == "L" else c.T @ c.conj()
+    elif kind == "generic":
+        # generic positive Hermitian matrix: weight in EVERY sector, also one-sided ones and between sectors
+        g = rnd(N, N)
+        dm = g @ g.conj().T + numpy.eye(N)
+    else:
+        # "indefinite": Hermitian, not positive: exercises the clipping of negative eigenvalues
+        g = rnd(N, N)
+        dm = (g + g.conj().T) / 2
+    if case.get("junk") and kind == "state":
+        j = rnd(N, N)
+        j = (j + j.conj().T) / 2
         same = numpy.all(qn[:, None, :] == qn[None, :, :], axis=-1)
-        present = numpy.array([numpy.any(numpy.all(comp == qntot - q, axis=-1)) for q in qn])
-        dm = dm + j * ~(same & present[:, None])
+        pres = numpy.array([numpy.any(numpy.all(comp == qntot - q, axis=-1)) for q in qn])
+        dm = dm + j * ~(same & pres[:, None])
     LOG["append"].clear()
     try:
         u, s, new_qn = M.eigh_qn(dm.copy(), qnl, qnr, qntot, case["system"])
@@ -284,22 +311,29 @@ def run_eigh(case, seed):
     st += [u.shape[1]] + [x for t in new_qn for x in t]
     res["struct"] = st
     bad = res["oracle"]
-    N = len(qn)
-    same = numpy.all(qn[:, None, :] == qn[None, :, :], axis=-1)
-    present = numpy.array([numpy.any(numpy.all(comp == qntot - q, axis=-1)) for q in qn])
-    md = numpy.where(same & present[:, None], dm, 0)
+    md, psd, present = eigh_reference(dm, qn, comp, qntot)
     sc = max(1.0, float(numpy.abs(dm).max()))
     if u.shape != (N, len(s)) or len(new_qn) != len(s):
         bad.append("shapes")
         return res
-    if not numpy.allclose((u * s ** 2) @ u.conj().T, md, atol=1e-9 * sc, rtol=0):
-        bad.append("U s^2 U^dagger != mask o dm")
+    if numpy.any(numpy.iscomplex(s)) or numpy.any(numpy.asarray(s).real < 0) or not numpy.all(numpy.isfinite(s)):
+        bad.append("returned values not real non-negative")
+    rec = (u * numpy.asarray(s) ** 2) @ u.conj().T
+    if not numpy.allclose(rec, psd, atol=1e-9 * sc, rtol=0):
+        bad.append("U s^2 U^dagger != element-wise projection of dm (negative eigenvalues removed); max deviation %.3g" % float(numpy.abs(rec - psd).max()))
+    if kind != "indefinite" and not numpy.allclose(rec, md, atol=1e-9 * sc, rtol=0):
+        bad.append("U s^2 U^dagger != element-wise projection of the positive dm")
     if not numpy.allclose(u.conj().T @ u, numpy.eye(len(s)), atol=TOL):
         bad.append("U columns not orthonormal")
     for k in range(len(s)):
         rows = numpy.abs(u[:, k]) > 1e-12
         if numpy.any(numpy.any(qn[rows] != numpy.array(new_qn[k]), axis=-1)):
             bad.append("U column %d lives on rows with another label" % k)
+            break
+    for k in range(len(s)):
+        partner = qntot - numpy.array(new_qn[k])
+        if not numpy.any(numpy.all(comp == partner, axis=-1)):
+            bad.append("column %d carries label %s which has no partner %s on the complementary side" % (k, new_qn[k], partner.tolist()))
             break
     res["ok"] = not bad
     return res
